@@ -19,6 +19,7 @@ FIELDS = {
     ("Org", "part_of"): ("PartOf", "list", ("Org",)),
     ("Org", "has_part"): ("HasPart", "list", ("Org",)),
     ("Org", "linked_to"): ("LinkedTo", "list", ("Org",)),
+    ("Org", "headed_by"): ("HeadedBy", "list", ("Boss",)),
 }
 SUPER = {  # strict super-properties
     "HeadOf": ("WorksFor", "MemberOf", "AffiliatedWith", "ConnectedTo"),
@@ -26,7 +27,7 @@ SUPER = {  # strict super-properties
     "MemberOf": ("AffiliatedWith", "ConnectedTo"),
     "AffiliatedWith": ("ConnectedTo",),
 }
-INVERSE = {"MemberOf": "Member", "WorksFor": "Member", "HeadOf": "Member", "Member": "MemberOf",
+INVERSE = {"MemberOf": "Member", "WorksFor": "Member", "HeadOf": "HeadedBy", "HeadedBy": "HeadOf", "Member": "MemberOf",
            "PartOf": "HasPart", "HasPart": "PartOf"}
 TRANSITIVE = {"PartOf", "HasPart", "LinkedTo"}
 ROLE_TAKER = {"Boss": ("agent", "Agent")}
